@@ -11,7 +11,7 @@ pub struct Mutant {
     pub frame: usize,
 }
 
-pub const N_CLASSES: u64 = 38;
+pub const N_CLASSES: u64 = 41;
 
 /// Re-serialises all frames after the (unchanged) metadata prefix.
 pub fn reserialize(gs: &mut GenStream) {
@@ -441,6 +441,59 @@ pub fn mutate(gs: &mut GenStream, ch: &mut dyn Chooser, class: u64, fi: usize) -
                 *v = 0;
             }
             m("escape-width-0", false)
+        }
+        38 => {
+            // STREAMINFO announces another channel count than the frames carry (the frames keep
+            // their channel assignment, including left/side, side/right and mid/side)
+            let cur = params.channels;
+            let mut n = 1 + ch.below(8) as u8;
+            if n == cur {
+                n = if n == 8 { 1 } else { n + 1 };
+            }
+            let stereo_decorrelated = ir.chan_code >= 8;
+            patch_streaminfo(gs, |si| {
+                // channels - 1 lives in bits 3..1 of byte 12
+                si[12] = (si[12] & 0xF1) | ((n - 1) << 1);
+            });
+            return Some(Mutant {
+                class: if stereo_decorrelated { "streaminfo-channels-differ:decorrelated-frame" } else { "streaminfo-channels-differ" },
+                must_reject: true,
+                frame: 0,
+            });
+        }
+        39 => {
+            // STREAMINFO announces another bit depth while the frame states its own explicitly
+            if ir.bps_code == 0 {
+                return None;
+            }
+            let cur = params.bps;
+            let mut n = 4 + ch.below(29) as u8;
+            if n == cur {
+                n = if n == 32 { 4 } else { n + 1 };
+            }
+            patch_streaminfo(gs, |si| {
+                // bits-per-sample - 1: low bit of byte 12 and high nibble of byte 13
+                let v = n - 1;
+                si[12] = (si[12] & 0xFE) | (v >> 4);
+                si[13] = (si[13] & 0x0F) | ((v & 0x0F) << 4);
+            });
+            return Some(Mutant { class: "streaminfo-depth-differs", must_reject: true, frame: fi });
+        }
+        40 => {
+            // STREAMINFO announces another sample rate while the frame states its own explicitly
+            if ir.rate_code == 0 {
+                return None;
+            }
+            let nr = (params.rate + 1 + ch.below(1000) as u32) & 0xFFFFF;
+            if nr == params.rate {
+                return None;
+            }
+            patch_streaminfo(gs, |si| {
+                si[10] = (nr >> 12) as u8;
+                si[11] = (nr >> 4) as u8;
+                si[12] = (si[12] & 0x0F) | (((nr & 0xF) as u8) << 4);
+            });
+            return Some(Mutant { class: "streaminfo-rate-differs", must_reject: true, frame: fi });
         }
         _ => {
             // wasted bits at the maximum legal value with data at the rails
